@@ -117,9 +117,21 @@ def gen_jpeg(ctx):
                 ops.append("jpg %s %s %s %d %d %s %s %d" % (pix, orgs[k % len(orgs)], DEVS[(k // len(orgs)) % 4], w, h, kind, hx, JPEG_BOUND[(pix, kind)]))
     return ops
 
+def tree_variants(ctx):
+    """which of the proposed fixes the tree under test already carries (selects the model variant, like a translated kernel)"""
+    def src(rel):
+        try: return open(os.path.join(ctx.include, "boost/gil/extension/io", rel)).read()
+        except OSError: return ""
+    w, r, t = src("pnm/detail/write.hpp"), src("pnm/detail/read.hpp"), src("tiff/detail/write.hpp")
+    body = r[r.find("void read_bin_data"):]
+    gray1 = "gray1" + ("" if "row( pitch / 8 )" in w and "swap_half_bytes" in body else "-") + \
+            ("" if "row( pitch / 8 )" in w else "w") + ("" if "swap_half_bytes" in body else "r")
+    tiled_cs = "my_interleaved_pixel_iterator_type_from_pixel_reference<typename View::reference>" not in t
+    return gray1, tiled_cs
+
 def route(op):
     w = op.split()
-    if w[0] == "rt": return "n%d" % next(s for f, p, n, s in NATIVE if (f, p) == (w[1], w[2]))
+    if w[0] == "rt": return "n%d" % next(s for f, p, n, s in NATIVE if (f, p) == (w[1], w[2][:5] if w[2].startswith("gray1") else w[2]))
     if w[0] == "jpg": return "x8"
     if w[1] == "png": return "x%d" % PNG[w[2]][4]
     return "x%d" % TIFF[w[2]][4]
@@ -150,6 +162,11 @@ def run(ctx, ops=None):
         nat, ext, jpg = gen_native(ctx), gen_ext(ctx), gen_jpeg(ctx)
     else:
         nat = [o for o in ops if o.startswith("rt ")]; ext = [o for o in ops if o.startswith("rtx ")]; jpg = [o for o in ops if o.startswith("jpg ")]
+    gray1, tiled_cs = tree_variants(ctx)
+    if gray1 != "gray1" or tiled_cs: ctx.notes.append("tree under test carries proposed fixes: pnm gray1 variant %s, tiled tiff colour-space order %s" % (gray1, tiled_cs))
+    if ops is None or True:
+        nat = [o.replace(" pnm gray1 ", " pnm %s " % gray1, 1) if o.startswith("rt pnm gray1 ") else o for o in nat]
+        if tiled_cs: ext = [(lambda w: " ".join([w[0], w[1] + "-cs"] + w[2:]))(o.split()) if o.startswith("rtx tiff-tile") and "-cs" not in o.split()[1] else o for o in ext]
     args = (ctx.scratch,)
     for label, group, has_model in (("native", nat, True), ("ext", ext, True), ("jpeg", jpg, False)):
         if not group: continue
